@@ -3104,10 +3104,10 @@ func (dsc *dataStoreCommand) setRemove(keyName string, members []string) (output
 }
 
 func (dsc *dataStoreCommand) save(l lane.Lane, path string) (err error) {
-	if dsc.ds.data.dirty {
-		dsc.lock()
-		defer dsc.unlock()
+	dsc.lock()
+	defer dsc.unlock()
 
+	if dsc.ds.data.dirty {
 		if err = dsc.ds.save(path); err != nil {
 			l.Errorf("Unable to save to %s. Error: %s", path, err)
 			return
